@@ -248,6 +248,86 @@ fn parse_text_input(ctx: &Ctx, env: &Env, case: &CaseId, rng: &mut Rng) {
 			UniversalString::from_utf32be(b.clone()).is_ok(),
 		)
 	});
+	// whatever a constructor ACCEPTS is a constructible value: generation from it returns Ok or Err.
+	// Every string type through every constructor (borrowed text, owned text, FromStr, raw bytes).
+	let s2: String = match rng.below(6) {
+		0 => s.clone(),
+		1 => format!("{}.example", gen_char(rng, StrKind::Utf8)),
+		2 => format!("a{}", char::from_u32(0x100 * (1 + rng.below(0xff) as u32) + rng.below(0x80) as u32).unwrap_or('x')),
+		3 => format!("{}", char::from_u32(rng.below(0x300) as u32).unwrap_or('y')),
+		4 => hostile_string(rng),
+		_ => s.chars().take(3).collect(),
+	};
+	let how = rng.below(3);
+	let mut dn = DistinguishedName::new();
+	let mut sans: Vec<SanType> = vec![];
+	let made = call(ctx, env, case, "string_ctor_accepts", &|| format!("text={:?} ctor={}", s2, how), || {
+		let ia5 = match how {
+			0 => Ia5String::try_from(s2.as_str()),
+			1 => Ia5String::try_from(s2.clone()),
+			_ => Ia5String::from_str(&s2),
+		};
+		let pr = match how {
+			0 => PrintableString::try_from(s2.as_str()),
+			1 => PrintableString::try_from(s2.clone()),
+			_ => PrintableString::from_str(&s2),
+		};
+		let tt = match how {
+			0 => TeletexString::try_from(s2.as_str()),
+			1 => TeletexString::try_from(s2.clone()),
+			_ => TeletexString::from_str(&s2),
+		};
+		let bmp = match how {
+			0 => BmpString::try_from(s2.as_str()),
+			1 => BmpString::try_from(s2.clone()),
+			_ => BmpString::from_str(&s2),
+		};
+		let un = match how {
+			0 => UniversalString::try_from(s2.as_str()),
+			1 => UniversalString::try_from(s2.clone()),
+			_ => UniversalString::try_from(s2.as_str()),
+		};
+		(ia5.ok(), pr.ok(), tt.ok(), bmp.ok(), un.ok(), BmpString::from_utf16be(b.clone()).ok(), UniversalString::from_utf32be(b.clone()).ok())
+	});
+	if let Some((ia5, pr, tt, bmp, un, bmp2, un2)) = made {
+		if let Some(v) = ia5 {
+			ctx.count("outcome:ctor-accepted:ia5");
+			sans.push(SanType::DnsName(v.clone()));
+			sans.push(SanType::Rfc822Name(v.clone()));
+			sans.push(SanType::URI(v.clone()));
+			dn.push(DnType::CustomDnType(vec![1, 2, 840, 113549, 1, 9, 1]), DnValue::Ia5String(v));
+		}
+		if let Some(v) = pr {
+			ctx.count("outcome:ctor-accepted:printable");
+			dn.push(DnType::CountryName, DnValue::PrintableString(v));
+		}
+		if let Some(v) = tt {
+			ctx.count("outcome:ctor-accepted:teletex");
+			dn.push(DnType::OrganizationName, DnValue::TeletexString(v));
+		}
+		if let Some(v) = bmp {
+			ctx.count("outcome:ctor-accepted:bmp");
+			dn.push(DnType::OrganizationalUnitName, DnValue::BmpString(v));
+		}
+		if let Some(v) = un {
+			ctx.count("outcome:ctor-accepted:universal");
+			dn.push(DnType::LocalityName, DnValue::UniversalString(v));
+		}
+		if let Some(v) = bmp2 {
+			dn.push(DnType::StateOrProvinceName, DnValue::BmpString(v));
+		}
+		if let Some(v) = un2 {
+			dn.push(DnType::CommonName, DnValue::UniversalString(v));
+		}
+		let mut p = CertificateParams::default();
+		p.distinguished_name = dn;
+		p.subject_alt_names = sans;
+		let d = format!("text={:?} ctor={} bytes={} -> {:?} {:?}", s2, how, hex(&b), p.distinguished_name, p.subject_alt_names);
+		let t2 = || crate::util::clip(&d, 2000);
+		let (p1, p2) = (p.clone(), p.clone());
+		let _ = call(ctx, env, case, "accepted-strings->self_signed", &t2, || p1.self_signed(&env.key).map(|c| c.der().len()));
+		let _ = call(ctx, env, case, "accepted-strings->serialize_request", &t2, || p2.serialize_request(&env.key).map(|c| c.der().len()));
+	}
 	let cidr = match rng.below(5) {
 		0 => s.clone(),
 		1 => format!("{}/{}", gen_ip(rng), rng.below(300)),
